@@ -90,8 +90,9 @@ def main():
         'setup_cmd': './vf setup',
         'hooks': {
             'guard': 'PREGEX_VERIF_TRACE',
-            'enable': 'no source hooks: the API is observed from outside (harness wrappers); PREGEX_VERIF_TRACE=1 '
-                      'enables the external tracer used for trace validation',
+            'enable': 'no source hooks in /repo: PREGEX_VERIF_TRACE=1 enables the external tracer /verif/harness/tracer.py (a pytest '
+                      'plugin, -p harness.tracer) that wraps the public constructors, chained methods and operator dunders from '
+                      'outside and records builder events; the C02/C03 checks run the repository test suite under it',
             'baseline_off_cmd': 'cd /repo && /venv/bin/python -m pytest -ra -q -p no:cacheprovider --timeout=900 '
                                 '--continue-on-collection-errors',
             'source_commits': [],
